@@ -31,6 +31,8 @@ def block(seq):
 
 
 def cases(rng, tier):
+    for sq in gen.sparse_charge_seqs(rng, 40 if tier == "quick" else 400):
+        yield Case(block(sq), {"kind": "sparse-charges"})
     # the same query several times in a row on one object
     for c in gen.repeated_call_cases(rng, 8 if tier == "quick" else 60, ['delta'], gen.CLAMP_BAND[:8] if False else ()):
         yield c
